@@ -24,3 +24,4 @@ run 3d85791 C16
 run 8770d99 C06
 run 77b5bb7 C13
 run 695264f C20
+run 859808a C02
